@@ -169,7 +169,7 @@ def evaluate(j, identical, T, M, res: Result, case):
             ev(4)
             if not close(float(mk.tracer_diffusivity(dimensions=3)), D3 * k * k):
                 V('diffusivity-does-not-scale-with-k-squared', f'k={k}')
-            if not close(float(mk.vibration_amplitude()), va * k, 1e-8):
+            if not close(float(mk.vibration_amplitude()), va * k, 1e-8, 1e-10 * k):  # an amplitude spread of exactly 0 stays 0 up to rounding
                 V('vibration-amplitude-does-not-scale-with-k', f'k={k}: {float(mk.vibration_amplitude())} vs {va * k}')
             if not close(float(mk.particle_density()), rho / k**3):
                 V('particle-density-does-not-scale-with-k^-3', f'k={k}')
